@@ -28,6 +28,9 @@ def body(kind, i, dur):
         return "J %d %.2f &" % (i, dur)
     if kind == "failing":       # the job's body raises a (fatal, in its subshell) expansion error: no effect, but it has to be awaited like any other
         return "{ sleep %.2f; : \"${NOPE_%d:?boom}\"; %s; } 2>/dev/null &" % (dur, i, eff)
+    if kind == "failpipe":      # a pipeline whose FIRST stage dies of a fatal expansion error while a later stage still has its work to do: the job is
+        # not finished (and its effect must be there after `wait`) until the last stage is
+        return "{ : \"${NOPE_%d:?boom}\"; } 2>/dev/null | { cat; sleep %.2f; %s; } &" % (i, dur, eff)
     raise ValueError(kind)
 
 
@@ -151,6 +154,8 @@ def gen_scenarios(tier, rnd):
     for pos in range(3):
         for extra in ("", "rewait"):
             sc.append((3, (2, 0, 1), "top", ["failing" if i == pos else "group" for i in range(3)], extra, pos + 1))
+            sc.append((3, (2, 0, 1), "top", ["failpipe" if i == pos else "group" for i in range(3)], extra))
+            sc.append((3, (0, 2, 1), "function", ["failpipe" if i == pos else "pipeline" for i in range(3)], extra))
     big = [5, 6, 8] if tier == "thorough" else [4, 6]
     for n in big:
         for _ in range(6 if tier == "quick" else 40):
